@@ -165,8 +165,8 @@ SCRIPTS = {
                         ["Edit", 0, [["k", "d"], ["k", "n"]], ["seti", 0, typed(0)]], ["IdPath", 1], ["Doc", 1]],
     # a clone of a job with symbolic links in its payload is independent of the source
     "clone-with-links": [["NewSession", "A"], ["NewSession", "B"], ["OpenSp", 0, typed({"a": 0})], ["Init", 0, False],
-                         ["WriteFile", 0, ["data.txt"], "6869"], ["Link", 0, ["l_out"], "6f7574", "out", []],
-                         ["Link", 0, ["sub", "l_rel"], "6869", "rel", ["data.txt"]], ["Clone", 1, 0],
+                         ["WriteFile", 0, ["t.dat"], "6869"], ["Link", 0, ["l_out"], "6f7574", "out", []],
+                         ["Link", 0, ["sub", "l_rel"], "6869", "rel", ["t.dat"]], ["Clone", 1, 0],
                          ["ViaAppend", 1, ["l_out"], "21", "6f757421"], ["ViaAppend", 1, ["sub", "l_rel"], "21", "686921"],
                          ["Edit", 0, [], ["set", "a", typed(1)]], ["Remove", 0]],
     "lifecycle-clean": [["NewSession", "A"], ["NewSession", "B"], ["OpenSp", 0, typed({"a": 0, "c": [1, 2]})],
@@ -327,18 +327,20 @@ def random_ops(desc, W):
                     yield ["Init", h, False]
                     if W.last_out == ["unit"]:
                         data = bytes(rng.randrange(256) for _ in range(rng.randint(1, 5))).hex()
-                        yield ["WriteFile", h, ["data.txt"], data]
+                        # (the target of the relative link is a name no other operation writes to: in the model the
+                        # link is a file of its own)
+                        yield ["WriteFile", h, ["t.dat"], data]
                         out = bytes(rng.randrange(256) for _ in range(rng.randint(1, 5))).hex()
                         yield ["Link", h, ["l_out"], out, "out", []]
                         if rng.random() < 0.6:
-                            yield ["Link", h, ["sub", "l_rel"], data, "rel", ["data.txt"]]
+                            yield ["Link", h, ["sub", "l_rel"], data, "rel", ["t.dat"]]
                         before = len(W.handles)
                         yield ["Clone", s2, h]
                         if len(W.handles) > before:
                             new_group(before)
                             yield ["ViaAppend", before, ["l_out"], "21", out + "21"]
                             if rng.random() < 0.5:
-                                yield ["WriteFile", before, ["data.txt"], "7a"]
+                                yield ["ViaAppend", before, ["t.dat"], "7a", data + "7a"]
                             k = rng.choice(KEYS)
                             yield rng.choice([["Edit", h, [], ["set", k, typed(rng.choice(VALS[k]))]], ["Remove", h],
                                               ["Move", before, [i for i, r_ in enumerate(sess_root) if r_ == W.root_of(W.handles[h])][0]]])
